@@ -31,6 +31,10 @@ CHECKS = {
    technique="bounded-exhaustive enumeration of collection-rooted documents written by xt itself, detection re-run from slice and under deviation-bounded read schedules, exception predicate decided by independent readers",
    text="Every enumerated collection-rooted document/stream, written by xt in each format, is detected as that format from a slice and from a reader under every schedule within the bound, and translating it without -f equals translating it with -f; TOML outputs that an earlier trial also accepts (own JSON reader / own YAML reader decide) are counted as the documented exception.",
    note="Trusted: the harness's JSON reader and libyaml-event YAML reader for the exception predicate. Documents beyond the enumerated families are not covered."),
+ "C11": dict(cat="fault_enumeration", design="4.11",
+   technique="exhaustive defect enumeration on the real library: a syntax defect at every byte position, an unrepresentable value at every node path, a writer failing at every output byte; reference texts obtained at run time from the source/target crates themselves",
+   text="For every small tree in every source spelling: each single-byte syntax defect yields the source parser's own message (identical for all streaming targets, never 'translation failed'); each unrepresentable value planted at any node yields an error containing the target serializer's own reason; a writer that starts failing at any byte of the output yields an error containing the writer's text or the serializer's own reason, for every syntactic element class.",
+   note="Trusted: the pinned serde_json / serde_yaml / rmp_serde / toml crates as the source of reference texts (driven through the same entry points xt uses, with value-typed visitors). For YAML from a reader only position presence and target-independence are judged (the chunker's texts are xt's own)."),
  "C12": dict(cat="fault_enumeration", design="4.12",
    technique="exhaustive fault-point enumeration on the real library: reader fails at every byte offset, writer fails at every output byte, deviation-bounded short-write and read-schedule exploration, flush failure",
    text="For every corpus input, source selection and target: a reader failing at EVERY offset k (including in place of EOF) yields Err with the reader's text and only complete fault-free documents before it; a writer failing at EVERY k yields Err with accepted bytes a prefix of the fault-free output; every short-write schedule within the bound yields exactly the fault-free output; flush errors are forwarded.",
